@@ -47,7 +47,7 @@ K_PROTOCOL = "select/feedback-not-alternating"
 K_CRASH = "scheduler-raised"
 FROM_TRAINER = "-from-trainer-counter"  # suffix: consequence of a wrong counter returned by train_st
 
-RULE_SCHED = (
+RULE = RULE_SCHED = (
     "schedulers: DFS over all feedback sequences (alphabets in ASSUMPTIONS) of every registered selector, "
     "alternating select/feedback, with both out-of-protocol calls tried in every state on a copy; one "
     "evaluation = one oracle comparison (id validity, a rejected out-of-protocol call, initial coverage, "
@@ -77,6 +77,8 @@ ASSUMPTIONS = [
     "ends by termination or truncation depending on the task index), budgets 5..11, lengths {1..4}^tasks, "
     "2-3 tasks, scheduling interval {1,2}; real single-task trainers (train_ddpg/train_td3/train_sac) run "
     "in warm-up-only mode with tiny networks, so nothing learns and returns depend only on the scripted rewards",
+    "train_smt is only called with b1 >= 2 and b2 >= 1 (with b2 = 0 and a non-empty stage-2 pool smt_stage2 raises "
+    "UnboundLocalError before any step is executed: a crash outside this property, not enumerated)",
     "a livelock is made observable by a shared step guard (2*budget+8 environment steps) and a trainer-call "
     "guard (budget+6 calls); hitting either is reported, never waited for",
     "train_uts picks tasks with jax.random.choice: the seed is a value alphabet (1-2 seeds), task draws are "
@@ -115,8 +117,10 @@ def sched_items(tier, seed):
                     continue  # 3 arms x 3 feedback values (531 441 sequences) for two of the three settings
                 if tier == "quick":
                     alpha = [-1.0, 0.0, 2.0] if arms <= 2 else [0.0, 2.0]
-                else:
+                elif name in UCB:
                     alpha = [-1.0, 0.0, 2.0] if arms <= 3 else [0.0, 2.0]
+                else:  # selectors documented to ignore the feedback value
+                    alpha = [-1.0, 0.0, 2.0] if arms <= 2 else [0.0, 2.0]
                 depth = 3 * arms + 3
                 leaves = len(alpha) ** depth
                 plen = 0
@@ -440,7 +444,7 @@ class _Null:
 
 BUDGETS = [5, 6, 7, 8, 9, 10, 11]
 SMT_SPLITS_QUICK = [(3, 2), (4, 2), (5, 2), (4, 4), (5, 4), (6, 4), (7, 4)]  # b1 + b2 = 5..11
-SMT_SPLITS_MORE = [(2, 3), (5, 0), (3, 4), (6, 2), (7, 2), (8, 3), (2, 9)]
+SMT_SPLITS_MORE = [(2, 3), (9, 1), (3, 4), (6, 2), (7, 2), (8, 3), (2, 9)]  # b2 >= 1 (see ASSUMPTIONS)
 SMT_MODES = {
     # solved_threshold, unsolvable_threshold
     "main": (1e9, -1e9),  # never solved / never unsolvable: tasks cycle through the main pool
@@ -471,12 +475,12 @@ class TaskEnv(senv.ScriptEnv):
 
     def set_ctx(self, c):
         self.ctx = int(c)
-        self.done = True  # a task switch requires a reset before the next step
+        self.k = 0  # a new task starts a new episode count (every trainer call resets anyway)
 
     def step(self, a):
         if self.done:
             self.violated = "step-after-end"
-            raise senv.StepAfterEnd("step() after episode end / task switch without reset()")
+            raise senv.StepAfterEnd("step() after episode end without reset()")
         if self.guard.total >= self.guard.limit:
             self.violated = "horizon"
             raise senv.HorizonExceeded(f"more than {self.guard.limit} environment steps")
@@ -758,7 +762,7 @@ def run_one(item, col, lengths, budget_cfg):
             viol(K_INVALID, dict(calls=rec_log[:20]))
             return
         col.outcome("mt_amt_selector_calls_observed", len(rec_log))
-    # (a) no crash, no step after an episode end / task switch without reset
+    # (a) no crash, no step after an episode end without reset
     col.tick(1, key)
     if err == "step-after-end":
         viol(K_STEP_AFTER_END)
